@@ -25,3 +25,10 @@ package negotiation
 //@ loop #1: accepted: idx > 0 ==> retBool("ClientHelloSnapshot.Offered", 0) || (allowed != nil && called("allowed") && retBool("allowed", 0)
 //@    && argAs("allowed", 0, extension.Type(0)) == retAs("Value.ExtensionType", 0, extension.Type(0)))
 //@ end
+
+// RFC 5764 4.1.1: the profile the server selected must be one the client offered; "the SRTP profile
+// comes from both lists": the client accepts a selection only when the profile is also in its own
+// configured list (localProfiles), whatever the ClientHello on the wire offered.
+//@ func ValidateSRTPSelection
+//@ ensures selection-in-local-policy: result1 == nil && result0.ProtectionProfile != 0 ==> exists(0, len(localProfiles), func(i int) bool { return localProfiles[i] == result0.ProtectionProfile })
+//@ end
